@@ -1553,6 +1553,9 @@ class Evaluator:
                 if v.op == "any" and v.a[1] and len(v.a[0]) == 1:
                     return Bits(w, [next(iter(v.a[0]))] + [0] * (w - 1))
                 return Sym("boolcast(%s)" % ckey(v))
+            if isinstance(v, Sym) and w and fn.startswith("core::convert::From::from") and not v.d.startswith(("str:", "bytes:")):
+                # `u64::from(x)` on an integer is the widening cast `x as u64`
+                return Sym("cast(%s as %s)" % (vkey(v), n["ty"]))
             return v
         if fn.startswith("core::clone::Clone::clone") or fn.startswith("core::borrow::Borrow::borrow") or fn.startswith("core::convert::AsRef::as_ref"):
             return args[0]
